@@ -17,6 +17,16 @@ CLAIMED = {
         "technique": "Lean 4 proof over hand-written model + differential correspondence (impl vs model vs spec)",
         "design_ref": "DESIGN.md §6 C01",
     },
+    "C03": {
+        "text": "Lean 4 theorem C03_guards (with corollaries C03_empty, C03_blank_fixed, C03_length, C03_chars, C03_hook_precondition) proves that the guard "
+                "pipeline of AbstractFieldFormat.validated returns the verdict fixed by the statement for every field (any type, rule, hook), "
+                "every format and every cell; the model is tied to /repo by an exhaustive product of declarations x cells run through the real "
+                "field classes, the Lean model and the declarative guard spec.",
+        "note": "Trusted: Lean kernel; faithfulness of Field.validatedWith / declareField to fields.py as exercised by the exhaustive product "
+                "(5 of 8 built-in types are modelled so far: Text, Integer, Choice, Constant + a harness plugin; the guards live in the shared base class).",
+        "technique": "Lean 4 proof over hand-written model (parametric in the value hook) + exhaustive differential correspondence",
+        "design_ref": "DESIGN.md §6 C03",
+    },
 }
 
 NOT_YET = {
